@@ -41,6 +41,9 @@ CONFIGS = {
     "simd-static-sse41": dict(feat=NAIVE + " tlsh/simd", rustflags="-C target-feature=+sse4.1"),
     "simd-static-avx2": dict(feat=NAIVE + " tlsh/simd", rustflags="-C target-feature=+avx2"),
     "naive-unsafe": dict(feat=NAIVE + " tlsh/unsafe"),
+    # `-C target-cpu=native` (the documented fastest build): AVX-512, LZCNT, BMI ... statically on
+    "default-native": dict(feat="easy std tlsh/opt-default tlsh/simd tlsh/detect-features", rustflags="-C target-cpu=native"),
+    "simd-static-native": dict(feat=NAIVE + " tlsh/simd", rustflags="-C target-cpu=native"),
     "nostd": dict(feat=""),
     # the library with neither std nor alloc, statically selected SIMD back ends
     "nostd-simd-sse2": dict(feat="tlsh/simd"),
@@ -61,7 +64,7 @@ CONFIGS = {
     "serde-strict": dict(feat="easy std serde strict tlsh/opt-default tlsh/simd tlsh/detect-features"),
     "serde-buffered-strict": dict(feat="easy std serde strict tlsh/serde-buffered tlsh/opt-default tlsh/simd tlsh/detect-features"),
 }
-HEXSIMD = {"mix-a", "mix-b", "nostd-simd-sse2", "nostd-simd-ssse3", "nostd-simd-sse41", "nostd-simd-avx2", "default", "default-unsafe", "simd-static-sse2", "simd-static-ssse3", "simd-static-sse41",
+HEXSIMD = {"default-native", "simd-static-native", "mix-a", "mix-b", "nostd-simd-sse2", "nostd-simd-ssse3", "nostd-simd-sse41", "nostd-simd-avx2", "default", "default-unsafe", "simd-static-sse2", "simd-static-ssse3", "simd-static-sse41",
            "simd-static-avx2", "strict", "serde", "serde-strict", "serde-buffered-strict"}
 for _n, _c in CONFIGS.items():
     if _n in HEXSIMD:
@@ -69,7 +72,7 @@ for _n, _c in CONFIGS.items():
 # the configurations whose results must be bit-identical (C07)
 MATRIX = ["default", "default-unsafe", "naive", "opt-default", "embedded", "lowmem-half", "lowmem-quarter",
           "lowmem-min", "simd-static-sse2", "simd-static-ssse3", "simd-static-sse41", "simd-static-avx2",
-          "naive-unsafe", "nostd", "mix-a", "mix-b", "mix-c"]
+          "naive-unsafe", "nostd", "mix-a", "mix-b", "mix-c", "default-native", "simd-static-native"]
 
 
 class ToolError(Exception):
@@ -84,8 +87,21 @@ def sh(cmd, **kw):
     return subprocess.run(cmd, stdout=subprocess.PIPE, stderr=subprocess.STDOUT, text=True, **kw)
 
 
+# Pseudo-configurations "<cfg>@<mask>": the binary of <cfg> run with CPU features hidden from CPUID
+# (harness/src/cpumask.rs), so that every runtime-dispatch arm is exercised on this one machine.
+CPU_MASKS = {"noavx2": "avx2", "sse2only": "avx2,sse4.1,ssse3"}
+
+
+def base_cfg(cfg):
+    return cfg.split("@")[0]
+
+
+def mask_of(cfg):
+    return CPU_MASKS[cfg.split("@")[1]] if "@" in cfg else ""
+
+
 def binary(cfg, profile="checked"):
-    return os.path.join(WORK, "target", cfg, profile, "vrec")
+    return os.path.join(WORK, "target", base_cfg(cfg), profile, "vrec")
 
 
 def build_one(cfg, profile="checked", jobs=4):
@@ -107,11 +123,14 @@ def build(cfgs, profile="checked", parallel=6):
     working tree.  Returns {cfg: (ok, output)}."""
     os.makedirs(os.path.join(WORK, "target"), exist_ok=True)
     res = {}
-    jobs = max(2, 16 // max(1, min(parallel, len(cfgs))))
+    bases = sorted(set(base_cfg(c) for c in cfgs))
+    jobs = max(2, 16 // max(1, min(parallel, len(bases))))
     with cf.ThreadPoolExecutor(max_workers=parallel) as ex:
-        for cfg, prof, ok, out, dt in ex.map(lambda c: build_one(c, profile, jobs), cfgs):
+        for cfg, prof, ok, out, dt in ex.map(lambda c: build_one(c, profile, jobs), bases):
             res[cfg] = (ok, out)
             log("  build %-24s %-8s %s (%.1fs)" % (cfg, prof, "ok" if ok else "FAILED", dt))
+    for c in cfgs:
+        res[c] = res[base_cfg(c)]
     return res
 
 
@@ -134,6 +153,10 @@ def save_built(d):
 # ----------------------------------------------------------------------------
 # Recording
 
+class MaskUnavailable(Exception):
+    """CPU feature masking (CPUID faulting) does not work on this machine: the pseudo-configuration is skipped."""
+
+
 class Crash(Exception):
     def __init__(self, cmd, rc, out):
         self.cmd, self.rc, self.out = cmd, rc, out
@@ -145,10 +168,15 @@ def record(cfg, family, out_path, seed, tier, variant=None, extra=(), profile="c
     if variant:
         cmd += ["--variant", variant]
     cmd += list(extra)
+    env = dict(os.environ)
+    if mask_of(cfg):
+        env["VREC_CPU_MASK"] = mask_of(cfg)
     try:
-        r = sh(cmd, timeout=timeout)
+        r = sh(cmd, timeout=timeout, env=env)
     except subprocess.TimeoutExpired:
         raise ToolError("recorder timed out: " + " ".join(cmd))
+    if r.returncode == 77 and "CPUMASK-UNAVAILABLE" in r.stdout:
+        raise MaskUnavailable(r.stdout.strip()[-200:])
     if r.returncode != 0:
         # a death of the process inside a library call is an observation, not a tool error
         raise Crash(cmd, r.returncode, r.stdout[-4000:])
